@@ -395,3 +395,22 @@ def const_value(fn: FunctionInfo, e: ast.AST | None):
                     continue
         break
     return ...
+
+
+def referenced_only_from(ci, name: str, allowed: set[str], _seen: set[str] | None = None) -> bool:
+    """is the private method `name` of class `ci` referenced (called, or handed on as a bound method / inside a lambda) only from
+    methods in `allowed` - directly or through other private methods that are themselves referenced only from there?"""
+    seen = _seen if _seen is not None else set()
+    if name in allowed:
+        return True
+    if name in seen or not name.startswith("_") or name.endswith("__"):
+        return False
+    seen.add(name)
+    users = set()
+    for m in ci.methods.values():
+        if isinstance(m.node, ast.Lambda) or m.name == name or m.self_name is None:
+            continue
+        for x in ast.walk(m.node):
+            if isinstance(x, ast.Attribute) and x.attr == name and isinstance(x.value, ast.Name) and x.value.id in (m.self_name, "cls"):
+                users.add(m.name)
+    return bool(users) and all(referenced_only_from(ci, u, allowed, seen) for u in users)
